@@ -39,7 +39,10 @@ RULE = ("constructor kind (floats without/with reference, reference as datetime 
         "(float64 / row of a 2-D block / strided view / float32 / int64 / same array as data / live .t of the previous series / datetime or "
         "datetime64 stamps / read back from one .ts|.dat|.pkl file) x reference patterns (same, different, none) x ALL interleaved histories "
         "of length <= 2 (thorough: 3 for the main sources) over {set(x), set(None), read, copy, spawn a series from .t} x {series 0, 1} + seeded random "
-        "interleaved histories; non-trivial = the history contains a successful "
+        "interleaved histories; PROC (c18_proc): uniformly / irregularly sampled series (floats + reference, datetime, datetime64 stamps) x "
+        "histories over {read, re-reference, copy, modify with every kind of option and combination (twin, resample step / array, "
+        "filterargs, window_len, taperfrac; differently spelled arguments), calls of every kind the entry points reject (also part-way), "
+        "after which the same object is used again}, and pairs of series processed with one caller's array; non-trivial = the history contains a successful "
         "re-referencing of a series that has a reference; distinct by (constructor, data, history)")
 
 EPOCH = datetime(2000, 1, 1)
@@ -870,7 +873,7 @@ def run(chk):
     chk.partial += ["microsecond rounding: measured on realistic float histories (largest drift reported as max_drift_us), not proved"]
     chk.matchers[NS_FINDING] = lambda f: f.get("clause") == "ns_resolution"
     drv = core.Driver()
-    corpus = [c for c in core.load_corpus("C18") if "ctor" in c]
+    corpus = [c for c in core.load_corpus("C18") if "ctor" in c and c.get("kind") is None]
     exact = corpus + list(enum_cases(chk)) + list(rand_cases(chk, 3000 if chk.quick else 60000))
     exact.append(mk_case(CTORS[0], [], None, ["copy"]))
     exact.append(mk_case(CTORS[3], [], None, []))
@@ -957,7 +960,7 @@ def show_trace(tr):
 
 def replay(rp):
     case = rp.get("input") or {}
-    if case.get("kind") == "proc":
+    if case.get("kind") in ("proc", "procpair"):
         return c18_proc.replay_proc(rp)
     if case.get("kind") == "shared":
         fails = []
